@@ -7,8 +7,12 @@ import (
 	"fmt"
 	"os"
 	"strings"
+	"sync"
+	"sync/atomic"
 	"testing"
 	"time"
+
+	"google.golang.org/grpc"
 
 	pb "github.com/marekgalovic/anndb/protobuf"
 	"github.com/marekgalovic/anndb/utils"
@@ -272,6 +276,64 @@ func runTopology(rec *mon.Recorder, c int) {
 		rec.Count("size_checks_after_count_preserving_changes", 1)
 		if !checkSizes("after-updates-that-keep-the-item-count") {
 			return
+		}
+	}
+	// What a client is told: the same numbers through the public DatasetManager service of every node (GetDatasetSize,
+	// Get and List with sizes), while other clients of that node ask for the same dataset without sizes. Two more
+	// datasets exist by now, so that a listing spends time between computing one dataset's size and sending it.
+	if rec.Violations() == 0 && c%2 == 0 {
+		for i := 0; i < 2; i++ {
+			cl.CreateDataset(0, 2, 2, 1, pb.Space_Euclidean)
+		}
+		for _, n := range cl.Nodes {
+			cc, derr := grpc.Dial(n.Addr, grpc.WithInsecure())
+			if derr != nil {
+				continue
+			}
+			dmc := pb.NewDatasetManagerClient(cc)
+			var stop int32
+			var pg sync.WaitGroup
+			for k := 0; k < 2; k++ {
+				pg.Add(1)
+				go func() {
+					defer pg.Done()
+					for atomic.LoadInt32(&stop) == 0 {
+						gctx, cancel := context.WithTimeout(ctx, 2*time.Second)
+						dmc.Get(gctx, &pb.GetDatasetRequest{DatasetId: dsId.Bytes(), WithSize: false})
+						cancel()
+					}
+				}()
+			}
+			bad := ""
+			for rep := 0; rep < 6 && bad == ""; rep++ {
+				gctx, cancel := context.WithTimeout(ctx, 5*time.Second)
+				if sz, err := dmc.GetDatasetSize(gctx, &pb.GetDatasetRequest{DatasetId: dsId.Bytes()}); err == nil && (sz.GetLen() != sumLen || sz.GetBytesSize() != sumBytes) {
+					bad = fmt.Sprintf("GetDatasetSize answered (%d,%d)", sz.GetLen(), sz.GetBytesSize())
+				}
+				if d, err := dmc.Get(gctx, &pb.GetDatasetRequest{DatasetId: dsId.Bytes(), WithSize: true}); err == nil && bad == "" && d.GetSize() != sumLen {
+					bad = fmt.Sprintf("Get with its size answered %d items", d.GetSize())
+				}
+				if st, err := dmc.List(gctx, &pb.ListDatasetsRequest{WithSize: true}); err == nil && bad == "" {
+					for {
+						d, rerr := st.Recv()
+						if rerr != nil {
+							break
+						}
+						if uuid.Equal(uuid.FromBytesOrNil(d.GetId()), dsId) && d.GetSize() != sumLen {
+							bad = fmt.Sprintf("List with sizes answered %d items", d.GetSize())
+						}
+					}
+				}
+				cancel()
+				rec.Count("sizes_asked_through_the_service_while_others_ask_without", 3)
+			}
+			atomic.StoreInt32(&stop, 1)
+			pg.Wait()
+			cc.Close()
+			if bad != "" {
+				rec.Violation("service:wrong-size-without-error", fmt.Sprintf("%s: node %d: %s and no error while other clients ask for the dataset without sizes; the partitions hold (%d,%d)", desc, n.Id, bad, sumLen, sumBytes), replay)
+				break
+			}
 		}
 	}
 	// injected failure of a needed remote lookup: the call must fail
